@@ -7,6 +7,31 @@ import (
 	"gtverif/internal/gal"
 )
 
+// gStr renders a Coq string.  Strings with bytes outside printable ASCII (TAB, non-ASCII, U+2028 …)
+// are written as str_of_bytes [..] so that the cases file stays one plain ASCII line per case.
+func gStr(s string) string {
+	plain := true
+	for i := 0; i < len(s); i++ {
+		if s[i] < 32 || s[i] > 126 {
+			plain = false
+			break
+		}
+	}
+	if plain {
+		return gal.Str(s)
+	}
+	var b strings.Builder
+	b.WriteString("(str_of_bytes [")
+	for i := 0; i < len(s); i++ {
+		if i > 0 {
+			b.WriteString("; ")
+		}
+		fmt.Fprintf(&b, "%d", s[i])
+	}
+	b.WriteString("]%N)")
+	return b.String()
+}
+
 func gZ(dec string) string { return "(" + dec + ")%Z" }
 
 func gRes(s string) string {
@@ -24,7 +49,7 @@ func gOptStr(s *string) string {
 	if s == nil {
 		return "None"
 	}
-	return "(Some " + gal.Str(*s) + ")"
+	return "(Some " + gStr(*s) + ")"
 }
 
 func gOptZ(s *string) string {
@@ -37,34 +62,34 @@ func gOptZ(s *string) string {
 func gPayload(k, s, i string, b bool) string {
 	switch k {
 	case "str":
-		return "(PStr " + gal.Str(s) + ")"
+		return "(PStr " + gStr(s) + ")"
 	case "int":
 		return "(PInt " + gZ(i) + ")"
 	case "bool":
 		return "(PBool " + gal.Bool(b) + ")"
 	}
-	return "(PStr " + gal.Str("?"+s) + ")"
+	return "(PStr " + gStr("?"+s) + ")"
 }
 
 func gPayloadJ(p payloadJ) string { return gPayload(p.K, p.S, p.I, p.B) }
 
 func gCell(c Cell) string {
-	return "{| cl_var := " + gal.Str(c.Var) + "; cl_expr := " + gal.Str(c.Expr) + "; cl_val := {| dty := " +
-		gal.Str(c.Ty) + "; dval := " + gPayload(c.Kind, c.Str, c.Int, c.Bool) + " |} |}"
+	return "{| cl_var := " + gStr(c.Var) + "; cl_expr := " + gStr(c.Expr) + "; cl_val := {| dty := " +
+		gStr(c.Ty) + "; dval := " + gPayload(c.Kind, c.Str, c.Int, c.Bool) + " |} |}"
 }
 
 func gConst(c Const) string {
-	return "{| c_name := " + gal.Str(c.Name) + "; c_val := " + gZ(c.Val) + "; c_dep := " + gal.Bool(c.Dep) +
+	return "{| c_name := " + gStr(c.Name) + "; c_val := " + gZ(c.Val) + "; c_dep := " + gal.Bool(c.Dep) +
 		"; c_cells := " + gal.ListOf(c.Cells, gCell) + " |}"
 }
 
 func gTypeInfo(t TypeInfo) string {
-	return "(" + gal.Str(t.Ty) + ", {| ti_bkind := " + t.BKind + "; ti_json_own := " + gal.Bool(t.JSONOwn) +
+	return "(" + gStr(t.Ty) + ", {| ti_bkind := " + t.BKind + "; ti_json_own := " + gal.Bool(t.JSONOwn) +
 		"; ti_yaml_own := " + gal.Bool(t.YAMLOwn) + "; ti_text_own := " + gal.Bool(t.TextOwn) + " |})"
 }
 
 func gDef(e *EnumDef) string {
-	return "{| d_ty := {| ty_name := " + gal.Str(e.Type) + "; ty_signed := " + gal.Bool(e.Signed) +
+	return "{| d_ty := {| ty_name := " + gStr(e.Type) + "; ty_signed := " + gal.Bool(e.Signed) +
 		"; ty_bits := " + gZ(fmt.Sprint(e.Bits)) + " |}; d_consts := " + gal.ListOf(e.Consts, gConst) +
 		"; d_types := " + gal.ListOf(e.Types, gTypeInfo) + " |}"
 }
@@ -72,7 +97,7 @@ func gDef(e *EnumDef) string {
 func gOpts(o Opts) string {
 	return "{| o_json := " + gal.Bool(o.JSON) + "; o_yaml := " + gal.Bool(o.YAML) + "; o_text := " + gal.Bool(o.Text) +
 		"; o_ci := " + gal.Bool(o.CI) + "; o_notraits := " + gal.Bool(o.NoTraits) + "; o_parsable := " +
-		gal.ListOf(o.Parsable, gal.Str) + " |}"
+		gal.ListOf(o.Parsable, gStr) + " |}"
 }
 
 // jsonCase is the replay / evidence form of a case.
@@ -101,7 +126,7 @@ func gFrom(s string) string {
 	case strings.HasPrefix(s, "trait:"):
 		rest := s[6:]
 		i := strings.LastIndex(rest, ":")
-		return "(FromTrait " + gal.Str(rest[:i]) + " " + gZ(rest[i+1:]) + ")"
+		return "(FromTrait " + gStr(rest[:i]) + " " + gZ(rest[i+1:]) + ")"
 	}
 	return "FromNone"
 }
@@ -110,9 +135,9 @@ func gDoc(d docOut) string {
 	codec := map[string]string{"json": "CJson", "text": "CText", "yaml": "CYaml"}[d.Codec]
 	nat := gal.ListOf(d.Native, func(n nativeOut) string {
 		if n.Ok && n.P != nil {
-			return "(" + gal.Str(n.Ty) + ", Some " + gPayloadJ(*n.P) + ")"
+			return "(" + gStr(n.Ty) + ", Some " + gPayloadJ(*n.P) + ")"
 		}
-		return "(" + gal.Str(n.Ty) + ", None)"
+		return "(" + gStr(n.Ty) + ", None)"
 	})
 	return "{| do_codec := " + codec + "; do_from := " + gFrom(d.From) + "; do_called := " + gal.Bool(d.Called) +
 		"; do_str := " + gOptStr(d.Str) + "; do_u64 := " + gOptZ(d.U64) + "; do_i64 := " + gOptZ(d.I64) +
@@ -161,12 +186,12 @@ func emitCase(out *gal.Out, mode string, fd *FileDef, ei int, res *pkgResult, pl
 	case "c04":
 		g = "{| " + head +
 			"; k_values := " + gal.ListOf(obs.Values, gZ) +
-			"; k_strvalues := " + gal.ListOf(obs.StrValues, gal.Str) +
+			"; k_strvalues := " + gal.ListOf(obs.StrValues, gStr) +
 			"; k_probes := " + gal.ListOf(obs.Probes, func(p probeOut) string {
-			return "(" + gZ(p.E) + ", (" + gal.Bool(p.Valid) + ", " + gal.Str(p.Str) + "))"
+			return "(" + gZ(p.E) + ", (" + gal.Bool(p.Valid) + ", " + gStr(p.Str) + "))"
 		}) +
 			"; k_parses := " + gal.ListOf(obs.Parses, func(p parseOut) string {
-			return "(" + gal.Str(p.S) + ", (" + gRes(p.P) + ", (" + gRes(p.PS) + ", " + gRes(p.PG) + ")))"
+			return "(" + gStr(p.S) + ", (" + gRes(p.P) + ", (" + gRes(p.PS) + ", " + gRes(p.PG) + ")))"
 		}) + " |}"
 	case "c05":
 		g = "{| " + head +
@@ -183,10 +208,10 @@ func emitCase(out *gal.Out, mode string, fd *FileDef, ei int, res *pkgResult, pl
 			for i := range a.E {
 				items[i] = "(" + gZ(a.E[i]) + ", " + gPayloadJ(a.P[i]) + ")"
 			}
-			return "(" + gal.Str(a.Col) + ", " + gal.List(items) + ")"
+			return "(" + gStr(a.Col) + ", " + gal.List(items) + ")"
 		}) +
 			"; k12_tparse := " + gal.ListOf(obs.TParse, func(t tparseOut) string {
-			return "(" + gal.Str(t.Col) + ", (" + gZ(t.E) + ", ({| dty := " + gal.Str(t.In.Ty) + "; dval := " +
+			return "(" + gStr(t.Col) + ", (" + gZ(t.E) + ", ({| dty := " + gStr(t.In.Ty) + "; dval := " +
 				gPayloadJ(t.In.P) + " |}, " + gRes(t.Res) + ")))"
 		}) +
 			"; k12_docs := " + gal.ListOf(obs.Docs, gDoc) + " |}"
